@@ -15,9 +15,9 @@ import (
 // For every statement `h, err := <opener>(...)` (os.Open, os.Create, os.OpenFile, zip.OpenReader) at the top level of a
 // function body, every exit of the function reached after it must find the handle
 //   - closed (`h.Close()` executed on the path, or `defer h.Close()` registered, directly or through an owner), or
-//   - handed over: the return statement returns h itself, a value that owns it (a variable built from a composite
-//     literal mentioning h, assigned a field from h, or returned by a call that received h), or the results of a call
-//     that receives h or its owner.
+//   - handed over: the return statement returns h itself or a value that owns it (a variable built from a composite
+//     literal mentioning h, assigned a field from h, or returned by a call that received h).  Returning the results
+//     of a call that merely receives h is NOT a hand-over (the callee may fail and leave nobody to close it).
 // The `if err != nil { return ... }` that directly tests the opener's own error is exempt (no handle exists there).
 // The analysis walks the structured statement tree (if/else, switch, loops, blocks) with one state per path; a branch
 // merge keeps "closed" only if every branch that falls through has closed.  It is path-sensitive in the shape of the
@@ -113,6 +113,32 @@ func (w *hwalker) transfers(e ast.Node, st hstate) bool {
 		return !found
 	})
 	return found
+}
+
+// returnsOwner: the returned expression IS the handle or a value that owns it (identifier, &identifier, composite
+// literal mentioning it).  A call that merely receives the handle (`return NewReader(f)`) is not a hand-over: if the
+// callee fails, nobody is left to close it.
+func (w *hwalker) returnsOwner(e ast.Expr, st hstate) bool {
+	switch x := ast.Unparen(e).(type) {
+	case *ast.Ident:
+		o := w.info.Uses[x]
+		return o != nil && (o == w.h || st.owners[o])
+	case *ast.UnaryExpr:
+		return w.returnsOwner(x.X, st)
+	case *ast.StarExpr:
+		return w.returnsOwner(x.X, st)
+	case *ast.CompositeLit:
+		for _, el := range x.Elts {
+			if kv, ok := el.(*ast.KeyValueExpr); ok {
+				if w.returnsOwner(kv.Value, st) {
+					return true
+				}
+			} else if w.returnsOwner(el, st) {
+				return true
+			}
+		}
+	}
+	return false
 }
 
 func canOwn(t types.Type) bool {
@@ -231,7 +257,7 @@ func (w *hwalker) walk(list []ast.Stmt, st hstate) (hstate, bool) {
 			if !st.closed {
 				ok := false
 				for _, r := range s.Results {
-					if w.transfers(r, st) || w.closes(r, st) {
+					if w.returnsOwner(r, st) || w.closes(r, st) {
 						ok = true
 					}
 				}
